@@ -76,6 +76,7 @@ func VerifC09_Read() {
 	zz.Assert(zz.Implies(t <= start, got.IsZero()), "nothing released up to the start")
 	// a schedule whose end coincides with its start is rejected by the account's Validate(); "total from the end on" is about end > start
 	zz.Assert(zz.Implies(zz.And(t >= end, end > start), zz.CoinsEq(got, total)), "total released from the end on")
+	zz.ObserveCoins("got", got)
 	cnt := ReadPastPeriodCount(start, end, ps, t)
 	zz.Assert(zz.CoinsEq(vTotal(ps[:cnt]), got), "ReadPastPeriodCount counts exactly the released periods")
 	zz.Reach("end")
@@ -93,6 +94,8 @@ func VerifC09_Mono() {
 	total := vTotal(ps)
 	r1 := ReadSchedule(start, end, ps, total, t1)
 	r2 := ReadSchedule(start, end, ps, total, t2)
+	zz.ObserveCoins("r1", r1)
+	zz.ObserveCoins("r2", r2)
 	zz.Assert(zz.CoinsLTE(r1, r2), "ReadSchedule is non-decreasing in t")
 	zz.Assert(zz.CoinsLTE(r2, total), "never more than the total")
 	zz.Reach("end")
@@ -117,6 +120,9 @@ func VerifC09_Disjunct() {
 	}
 	zz.Assert(zz.CoinsEq(vTotal(m), vTotal(a).Add(vTotal(b)...)), "merged total = sum of totals")
 	got := ReadSchedule(s, e, m, vTotal(m), t)
+	zz.ObserveInt64("s", s)
+	zz.ObserveInt64("e", e)
+	zz.ObserveCoins("got", got)
 	want := vRef(sa, a, t).Add(vRef(sb, b, t)...)
 	zz.Assume(t > Max64(sa, sb))
 	zz.Assert(zz.CoinsEq(got, want), "after both started, merged schedule releases the sum of the two")
@@ -139,6 +145,9 @@ func VerifC09_Conjunct() {
 	zz.Assert(e == vEnd(s, m), "conjunct end time is the time of the last event")
 	zz.Assert(zz.CoinsEq(vTotal(m), vTotal(a).Min(vTotal(b))), "conjunct total = min of totals")
 	got := ReadSchedule(s, e, m, vTotal(m), t)
+	zz.ObserveInt64("s", s)
+	zz.ObserveInt64("e", e)
+	zz.ObserveCoins("got", got)
 	want := vRef(sa, a, t).Min(vRef(sb, b, t))
 	// at the single instant t = later start (starts differing) a zero-length first period of the later schedule is an
 	// event "at its own start", which the step-function convention (nothing up to and including the start) does not
